@@ -3,13 +3,14 @@ C03W — scripted operations, events, `step`, `simulateInit`, `runLoop`.
 -/
 import SimProc.Proofs.C03WOps
 import SimProc.Proofs.WorldPres
+import SimProc.Proofs.C11WStatic
 namespace SimProc
 namespace C03W
 open World FloorCoreL C03
 
-theorem G.schedG {E N : List Nat} {w : World} (h : G E N w) (t asset : Int) (a : Action)
+theorem G.schedG {E N A : List Nat} {w : World} (h : G E N A w) (t asset : Int) (a : Action)
     (prio : Int) (ha : ∀ d, a = .fail d → (w.dev d).kind = .processor) :
-    G E N (w.sched t asset a prio).1 := by
+    G E N A (w.sched t asset a prio).1 := by
   by_cases hle : w.now ≤ t
   · have := h.schedLib t asset a prio ha
     rw [schedLib_of_le w t asset a prio hle] at this
@@ -18,27 +19,27 @@ theorem G.schedG {E N : List Nat} {w : World} (h : G E N w) (t asset : Int) (a :
   · rw [sched_of_lt w t asset a prio (Int.not_le.mp hle)]
     exact h
 
-theorem G.startOrdersG {E N : List Nat} {w : World} (h : G E N w) (m : Nat) (st : List Order) :
-    G E N (w.startOrders m st) := by
+theorem G.startOrdersG {E N A : List Nat} {w : World} (h : G E N A w) (m : Nat) (st : List Order) :
+    G E N A (w.startOrders m st) := by
   unfold World.startOrders
   exact G.foldl _ (fun w o hw => hw.schedLib _ _ (Action.startWork m o.seq) _
     (fun d hd => Action.noConfusion hd)) _ h
 
-theorem G.withMaints {E N : List Nat} {w : World} (h : G E N w) (l : List MaintW) :
-    G E N { w with maints := l } :=
+theorem G.withMaints {E N A : List Nat} {w : World} (h : G E N A w) (l : List MaintW) :
+    G E N A { w with maints := l } :=
   h.of_eq rfl rfl rfl rfl rfl
 
-theorem G.modMaintG {E N : List Nat} {w : World} (h : G E N w) (m : Nat) (f : Maint → Maint) :
-    G E N (w.modMaint m f) := by
+theorem G.modMaintG {E N A : List Nat} {w : World} (h : G E N A w) (m : Nat) (f : Maint → Maint) :
+    G E N A (w.modMaint m f) := by
   unfold World.modMaint
   exact h.withMaints _
 
-theorem G.withScheds {E N : List Nat} {w : World} (h : G E N w) (l : List SchedW) :
-    G E N { w with scheds := l } :=
+theorem G.withScheds {E N A : List Nat} {w : World} (h : G E N A w) (l : List SchedW) :
+    G E N A { w with scheds := l } :=
   h.of_eq rfl rfl rfl rfl rfl
 
-theorem G.schedUpdateG {E N : List Nat} {w : World} (h : G E N w) (s : Nat) (b : Bool) :
-    G E N (w.schedUpdate s b) := by
+theorem G.schedUpdateG {E N A : List Nat} {w : World} (h : G E N A w) (s : Nat) (b : Bool) :
+    G E N A (w.schedUpdate s b) := by
   unfold World.schedUpdate
   dsimp only
   generalize (w.scheds.getD s default).s.update b = r
@@ -53,15 +54,15 @@ theorem G.schedUpdateG {E N : List Nat} {w : World} (h : G E N w) (s : Nat) (b :
     obtain ⟨o1, o2⟩ := o
     exact hw.addRes _
 
-theorem G.periodicSenseG {E N : List Nat} {w : World} (h : G E N w) (s : Nat) :
-    G E N (w.periodicSense s) := by
+theorem G.periodicSenseG {E N A : List Nat} {w : World} (h : G E N A w) (s : Nat) :
+    G E N A (w.periodicSense s) := by
   unfold World.periodicSense
   dsimp only
   refine G.schedLib ?_ _ _ (Action.periodicSense s) _ (fun d hd => Action.noConfusion hd)
   exact G.foldl _ (fun w c hw => hw.addRes _) _ (h.withSensors _)
 
-theorem G.initAssetG {E N : List Nat} {w : World} (h : G E N w) (a : AssetRef) :
-    G E N (w.initAsset a) := by
+theorem G.initAssetG {E N A : List Nat} {w : World} (h : G E N A w) (a : AssetRef) :
+    G E N A (w.initAsset a) := by
   cases a with
   | dev d => exact h.initDevG d
   | maint m => exact h.withMaints _
@@ -74,16 +75,16 @@ theorem G.initAssetG {E N : List Nat} {w : World} (h : G E N w) (a : AssetRef) :
     split
     · exact h1.schedLib _ _ (Action.periodicSense s) _ (fun d hd => Action.noConfusion hd)
     · split
-      · exact h1.modDev_irrel _ _ rfl rfl rfl rfl (fun _ => rfl) rfl
+      · exact h1.modDev_irrel _ _ rfl rfl (fun _ => rfl) rfl (fun _ => rfl) rfl
       · exact h1
   | cms c => exact h
 
-theorem G.withVars {E N : List Nat} {w : World} (h : G E N w) (l : List (Option Nat)) :
-    G E N { w with vars := l } :=
+theorem G.withVars {E N A : List Nat} {w : World} (h : G E N A w) (l : List (Option Nat)) :
+    G E N A { w with vars := l } :=
   h.of_eq rfl rfl rfl rfl rfl
 
-theorem G.setVarG {E N : List Nat} {w : World} (h : G E N w) (k : Nat) (v : Option Nat) :
-    G E N (w.setVar k v) := by
+theorem G.setVarG {E N A : List Nat} {w : World} (h : G E N A w) (k : Nat) (v : Option Nat) :
+    G E N A (w.setVar k v) := by
   unfold World.setVar
   exact h.withVars _
 
@@ -92,8 +93,8 @@ theorem targets_set_dev (l : List Target) (i : Nat) (ps : List (Int × Int × In
       l.map (fun t => ({ dev := t.dev } : Target)) :=
   map_set_of_eq _ l i _ default rfl
 
-theorem G.applyOpG {E N : List Nat} {w : World} (h : G E N w) (op : Op) (hop : OpS1 w op) :
-    G E N (w.applyOp op).1 := by
+theorem G.applyOpG {E N : List Nat} {w : World} (h : G E N [] w) (op : Op) (hop : OpSC w op) :
+    G E N [] (w.applyOp op).1 := by
   have hnoaid : ∀ a : Int, (∀ d ∈ w.devs, d.aid ≠ a) →
       ∀ d p, holdsD (w.dev d) = some p → d ∉ E → (w.dev d).aid ≠ a :=
     fun a ha d p hd _ => ha _ (dev_mem (holdsD_lt hd))
@@ -105,37 +106,41 @@ theorem G.applyOpG {E N : List Nat} {w : World} (h : G E N w) (op : Op) (hop : O
   | cancel a => exact h.cancel a (hnoaid a hop)
   | addRes r amt =>
     simp only [World.applyOp]
-    generalize w.rm.add r amt = q
+    have hw := add_waiting w.rm r amt
+    generalize w.rm.add r amt = q at hw
     obtain ⟨rm, res, recs, chk⟩ := q
-    exact (h.withRm rm).rmEffects recs chk
+    exact (h.withRm rm hw).rmEffects recs chk
   | reserve hh req =>
     simp only [World.applyOp]
-    generalize w.rm.reserve req = q
+    have hw := (C10.reserve_spec w.rm req).1
+    generalize w.rm.reserve req = q at hw
     obtain ⟨rm, res, id, recs⟩ := q
     dsimp only
     split
     · exact h
-    · exact ((h.withRm rm).rmEffects recs false).setVarG hh id
+    · exact ((h.withRm rm hw).rmEffects recs false).setVarG hh id
   | release hh part =>
     simp only [World.applyOp]
     split
     · exact h
     · next id _ =>
-      generalize w.rm.release id part = q
+      have hw := release_waiting w.rm id part
+      generalize w.rm.release id part = q at hw
       obtain ⟨rm, res, recs, chk⟩ := q
-      exact (h.withRm rm).rmEffects recs chk
+      exact (h.withRm rm hw).rmEffects recs chk
   | merge h1 h2 =>
     simp only [World.applyOp]
     split
     · exact h
     · split
       · exact h
-      · exact h.withRm _
+      · exact h.withRm _ (C10.merge_spec w.rm _ _).1
   | register k req =>
     simp only [World.applyOp]
+    have hn : hasRes w = false := hop
     generalize w.rm.register req (.script k) = q
     obtain ⟨rm, chk⟩ := q
-    exact (h.withRm rm).rmEffects [] chk
+    exact (h.withRmWR rm (Or.inl hn)).rmEffects [] chk
   | schedFail d t =>
     simp only [World.applyOp]
     split
@@ -162,15 +167,15 @@ theorem G.applyOpG {E N : List Nat} {w : World} (h : G E N w) (op : Op) (hop : O
     split
     · exact h
     · next hk => exact h.restoreDevG d (by simpa using hk)
-  | block d b => exact h.setBlockG d b
+  | block d b => exact h.setBlockG d b (by simp)
   | adjust d n => exact h.adjustPartsG d n
   | setCycle d c =>
     simp only [World.applyOp]
     split
     · exact h
-    · exact h.modDev_irrel d (fun x => { x with cycle := c }) rfl rfl rfl rfl (fun _ => rfl) rfl
+    · exact h.modDev_irrel d (fun x => { x with cycle := c }) rfl rfl (fun _ => rfl) rfl (fun _ => rfl) rfl
   | offsetNext d o =>
-    exact h.modDev_irrel d (fun x => { x with offset := x.offset + o }) rfl rfl rfl rfl (fun _ => rfl) rfl
+    exact h.modDev_irrel d (fun x => { x with offset := x.offset + o }) rfl rfl (fun _ => rfl) rfl (fun _ => rfl) rfl
   | rewire d ups => exact absurd hop id
   | workOrder m tgt tag info =>
     simp only [World.applyOp]
@@ -207,12 +212,12 @@ theorem G.applyOpG {E N : List Nat} {w : World} (h : G E N w) (op : Op) (hop : O
     · exact h.of_eq rfl rfl rfl rfl rfl
   | create spec => exact absurd hop id
 
-theorem S1.scriptOp {w : World} (h : S1 w) {l : List Op} (hl : l ∈ w.scripts) {op : Op} (hop : op ∈ l) :
-    OpS1 w op :=
-  opS1_of_sw w op (h.1.scripts l hl op hop)
+theorem SC.scriptOp {w : World} (h : SC w) {l : List Op} (hl : l ∈ w.scripts) {op : Op} (hop : op ∈ l) :
+    OpSC w op :=
+  opSC_of_sw w op (h.s.scripts l hl op hop)
 
-theorem G.applyOpsG {E N : List Nat} : ∀ (ops : List Op) {w : World}, G E N w →
-    (∀ op ∈ ops, ∃ l ∈ w.scripts, op ∈ l) → G E N (w.applyOps ops) := by
+theorem G.applyOpsG {E N : List Nat} : ∀ (ops : List Op) {w : World}, G E N [] w →
+    (∀ op ∈ ops, ∃ l ∈ w.scripts, op ∈ l) → G E N [] (w.applyOps ops) := by
   intro ops
   induction ops with
   | nil => intro w h _; exact h
@@ -221,15 +226,15 @@ theorem G.applyOpsG {E N : List Nat} : ∀ (ops : List Op) {w : World}, G E N w 
     unfold World.applyOps
     simp only [List.foldl_cons]
     obtain ⟨l, hl, hop⟩ := hops op (List.mem_cons_self ..)
-    have h1 := (h.applyOpG op (h.s1.scriptOp hl hop)).addRes (w.applyOp op).2
+    have h1 := (h.applyOpG op (h.sc.scriptOp hl hop)).addRes (w.applyOp op).2
     have hscr : ((w.applyOp op).1.addRes (w.applyOp op).2).scripts = w.scripts :=
       C02V.scr_applyOp w op
     have := ih h1 (fun o ho => by rw [hscr]; exact hops o (List.mem_cons_of_mem _ ho))
     unfold World.applyOps at this
     exact this
 
-theorem G.runScriptG {E N : List Nat} {w : World} (h : G E N w) (k : Nat) :
-    G E N (w.runScript k) := by
+theorem G.runScriptG {E N : List Nat} {w : World} (h : G E N [] w) (k : Nat) :
+    G E N [] (w.runScript k) := by
   unfold World.runScript
   refine G.applyOpsG _ h (fun op hop => ?_)
   by_cases hk : k < w.scripts.length
@@ -240,8 +245,118 @@ theorem G.runScriptG {E N : List Nat} {w : World} (h : G E N w) (k : Nat) :
       simp [List.getD_eq_getElem?_getD, Nat.le_of_not_lt hk]
     rw [e] at hop; cases hop
 
-theorem G.scanG {E N : List Nat} (n : Nat) : ∀ {w : World} (i : Nat), G E N w →
-    G E N (scanWaiting scanOps n w i) := by
+theorem mem_eraseIdx_of_ne {α} {l : List α} {i : Nat} {a b : α} (ha : a ∈ l) (hb : l[i]? = some b)
+    (hne : a ≠ b) : a ∈ l.eraseIdx i := by
+  induction l generalizing i with
+  | nil => cases ha
+  | cons c l ih =>
+    cases i with
+    | zero =>
+      simp only [List.getElem?_cons_zero, Option.some.injEq] at hb
+      subst hb
+      rcases List.mem_cons.mp ha with rfl | ha
+      · exact absurd rfl hne
+      · simpa using ha
+    | succ i =>
+      simp only [List.getElem?_cons_succ] at hb
+      rw [List.eraseIdx_cons_succ]
+      rcases List.mem_cons.mp ha with rfl | ha
+      · exact List.mem_cons_self ..
+      · exact List.mem_cons_of_mem _ (ih ha hb)
+
+theorem hasRes_of_sd {w w' : World} (h : C02V.sd w' = C02V.sd w) : hasRes w' = hasRes w := by
+  have key : ∀ v : World, hasRes v = (C02V.sd v).any (fun t => t.2.2.isSome) := by
+    intro v
+    unfold hasRes C02V.sd
+    rw [List.any_map]
+    rfl
+  rw [key, key, h]
+
+theorem opSC_not_rewire {w : World} {op : Op} (h : OpSC w op) :
+    (∀ d ups, op ≠ .rewire d ups) ∧ (∀ sp, op ≠ .create sp) := by
+  cases op <;> first
+    | exact absurd h id
+    | exact ⟨fun _ _ hh => Op.noConfusion hh, fun _ hh => Op.noConfusion hh⟩
+
+theorem sd_applyOps_nr : ∀ (ops : List Op) (w : World),
+    (∀ op ∈ ops, (∀ d ups, op ≠ .rewire d ups) ∧ (∀ sp, op ≠ .create sp)) →
+    C02V.sd (w.applyOps ops) = C02V.sd w := by
+  intro ops
+  induction ops with
+  | nil => intro w _; rfl
+  | cons op ops ih =>
+    intro w hops
+    unfold World.applyOps
+    simp only [List.foldl_cons]
+    have h1 := hops op (List.mem_cons_self ..)
+    have := ih ((w.applyOp op).1.addRes (w.applyOp op).2)
+      (fun o ho => hops o (List.mem_cons_of_mem _ ho))
+    unfold World.applyOps at this
+    rw [this]
+    exact (C02V.sd_addRes _ _).trans (C02V.sd_applyOp w op h1.1 h1.2)
+
+theorem sd_runScript_SC {w : World} (hs : SC w) (k : Nat) :
+    C02V.sd (w.runScript k) = C02V.sd w := by
+  unfold World.runScript
+  exact sd_applyOps_nr _ w (fun op hop => opSC_not_rewire (hs.script k op hop))
+
+/-- one served request of the availability check: call back, then remove the entry -/
+theorem G.scanStepG {E N : List Nat} {w : World} (h : G E N [] w) {i : Nat} {req : Req} {cb : Cb}
+    (hi : w.rm.waiting[i]? = some (req, cb)) :
+    G E N [] (scanOps.erase (scanOps.call w cb req) i) := by
+  rcases h.wr with hn | hreg
+  · -- no requirement anywhere: the waiting list is irrelevant
+    have h1 : G E N [] (scanOps.call w cb req) := by
+      cases cb with
+      | script k => exact (h.addRes (.cb k)).runScriptG k
+      | proc d => exact h.procResourceCbG d
+    refine h1.withRmWR _ (Or.inl ?_)
+    show hasRes (scanOps.call w cb req) = false
+    rw [← hn]
+    apply hasRes_of_sd
+    cases cb with
+    | script k => exact sd_runScript_SC (w := w.addRes (.cb k)) (h.addRes (.cb k)).sc k
+    | proc d => exact C02V.sd_procResourceCb w d
+  · obtain ⟨x, hx⟩ := hreg.1 (req, cb) (List.mem_of_getElem? hi)
+    dsimp only at hx
+    subst hx
+    have h1 : G E N [] (w.procResourceCb x) := h.procResourceCbG x
+    have hrm : (w.procResourceCb x).rm = w.rm := by
+      unfold World.procResourceCb
+      rw [core_eq_rm (notify_core _ _)]; rfl
+    have hflx : ((w.procResourceCb x).dev x).waitingRes = false ∨ w.devs.length ≤ x := by
+      by_cases hxl : x < w.devs.length
+      · left
+        unfold World.procResourceCb
+        rw [core_eq_dev_waitingRes (notify_core _ _), dev_modDev_same hxl]
+      · exact Or.inr (Nat.le_of_not_lt hxl)
+    refine h1.withRmWR _ ?_
+    rcases h1.wr with hn | hreg1
+    · exact Or.inl hn
+    · right
+      refine ⟨fun e he => hreg1.1 e (List.mem_of_mem_eraseIdx he), fun y hy => ?_⟩
+      obtain ⟨r, hr, hm⟩ := hreg1.2 y hy
+      refine ⟨r, hr, ?_⟩
+      show (r, Cb.proc y) ∈ (w.procResourceCb x).rm.waiting.eraseIdx i
+      rw [hrm] at hm ⊢
+      refine mem_eraseIdx_of_ne hm hi ?_
+      intro he
+      have hyx : y = x := by
+        have := congrArg Prod.snd he
+        simpa using this
+      subst hyx
+      rcases hflx with hf | hf
+      · have hy' : ((w.procResourceCb y).dev y).waitingRes = true := hy
+        rw [hf] at hy'; cases hy'
+      · have hl : (w.procResourceCb y).devs.length = w.devs.length := by
+          have := congrArg List.length (C02V.sd_procResourceCb w y)
+          simpa [C02V.sd] using this
+        have hy' : ((w.procResourceCb y).dev y).waitingRes = true := hy
+        rw [dev_of_length_le (by rw [hl]; exact hf)] at hy'
+        cases hy'
+
+theorem G.scanG {E N : List Nat} (n : Nat) : ∀ {w : World} (i : Nat), G E N [] w →
+    G E N [] (scanWaiting scanOps n w i) := by
   induction n with
   | zero => intro w i h; exact h
   | succ n ih =>
@@ -250,17 +365,13 @@ theorem G.scanG {E N : List Nat} (n : Nat) : ∀ {w : World} (i : Nat), G E N w 
     split
     · exact h
     · split
-      · next req cb _ _ =>
-        refine ih i (G.withRm (w := scanOps.call w cb req) ?_ _)
-        cases cb with
-        | script k => exact (h.addRes (.cb k)).runScriptG k
-        | proc d => exact h.procResourceCbG d
+      · next req cb hi _ => exact ih i (h.scanStepG hi)
       · exact ih _ h
 
-theorem G.rmCheckG {E N : List Nat} {w : World} (h : G E N w) : G E N w.rmCheck :=
+theorem G.rmCheckG {E N : List Nat} {w : World} (h : G E N [] w) : G E N [] w.rmCheck :=
   G.scanG _ _ h
 
-theorem target_dev_proc {w : World} (hs : S1 w) (tgt d : Nat)
+theorem target_dev_proc {w : World} (hs : SC w) (tgt d : Nat)
     (hd : (w.targets.getD tgt default).dev = some d) : (w.dev d).kind = .processor := by
   by_cases ht : tgt < w.targets.length
   · have e : w.targets.getD tgt default = w.targets[tgt] := by
@@ -271,28 +382,28 @@ theorem target_dev_proc {w : World} (hs : S1 w) (tgt d : Nat)
       simp [List.getD_eq_getElem?_getD, Nat.le_of_not_lt ht]
     rw [e] at hd; cases hd
 
-theorem G.hookStartG {E N : List Nat} {w : World} (h : G E N w) (tgt : Nat) (tag : Int) :
-    G E N (w.hookStart tgt tag) := by
+theorem G.hookStartG {E N : List Nat} {w : World} (h : G E N [] w) (tgt : Nat) (tag : Int) :
+    G E N [] (w.hookStart tgt tag) := by
   unfold World.hookStart
   dsimp only
   split
-  · next d hd => exact (h.addRes _).shutdownDevG d (target_dev_proc h.s1 tgt d hd) false none
+  · next d hd => exact (h.addRes _).shutdownDevG d (target_dev_proc h.sc tgt d hd) false none
   · split
     · exact (h.addRes _).runScriptG _
     · exact h.addRes _
 
-theorem G.hookEndG {E N : List Nat} {w : World} (h : G E N w) (tgt : Nat) (tag : Int) :
-    G E N (w.hookEnd tgt tag) := by
+theorem G.hookEndG {E N : List Nat} {w : World} (h : G E N [] w) (tgt : Nat) (tag : Int) :
+    G E N [] (w.hookEnd tgt tag) := by
   unfold World.hookEnd
   dsimp only
   split
-  · next d hd => exact (h.addRes _).restoreDevG d (target_dev_proc h.s1 tgt d hd)
+  · next d hd => exact (h.addRes _).restoreDevG d (target_dev_proc h.sc tgt d hd)
   · split
     · exact (h.addRes _).runScriptG _
     · exact h.addRes _
 
-theorem G.startWorkG {E N : List Nat} {w : World} (h : G E N w) (m seq : Nat) :
-    G E N (w.startWork m seq) := by
+theorem G.startWorkG {E N : List Nat} {w : World} (h : G E N [] w) (m seq : Nat) :
+    G E N [] (w.startWork m seq) := by
   unfold World.startWork
   split
   · exact h.setErr _
@@ -308,8 +419,8 @@ theorem G.startWorkG {E N : List Nat} {w : World} (h : G E N w) (m seq : Nat) :
     apply G.modMaintG
     exact h.addRec _
 
-theorem G.finishWorkG {E N : List Nat} {w : World} (h : G E N w) (m seq : Nat) :
-    G E N (w.finishWork m seq) := by
+theorem G.finishWorkG {E N : List Nat} {w : World} (h : G E N [] w) (m seq : Nat) :
+    G E N [] (w.finishWork m seq) := by
   unfold World.finishWork
   split
   · exact h.setErr _
@@ -337,14 +448,16 @@ theorem exemptOf_dead {e : Event} (h : e.live = false) : exemptOf e = [] := by
   unfold exemptOf
   rw [if_neg (by simp [h])]
 
-/-- **Every event action preserves the invariant** (a failure must target a processor). -/
-theorem G.execG {w : World} (a : Action) (h : G (exemptA a) [] w)
-    (ha : ∀ d, a = .fail d → (w.dev d).kind = .processor) : G [] [] (w.exec a) := by
+/-- **Every event action preserves the invariant** (a failure must target a processor; if batchers
+or batches exist, the conservation invariant of C02 holds and the batchers are settled). -/
+theorem G.execG {w : World} (a : Action) (h : G (exemptA a) [] [] w)
+    (ha : ∀ d, a = .fail d → (w.dev d).kind = .processor) (hI : InvB w) (hset : Settled w) :
+    G [] [] [] (w.exec a) := by
   cases a with
   | terminate => exact h
   | script k => exact h.runScriptG k
   | finishCycle d => exact h.finishCycle d
-  | passPart d => exact h.passPartG
+  | passPart d => exact h.passPartG hI hset
   | fail d => exact h.failDevG d (ha d rfl)
   | releaseIfIdle d => exact h.releaseIfIdleG d
   | rmCheck => exact h.rmCheckG
@@ -354,9 +467,14 @@ theorem G.execG {w : World} (a : Action) (h : G (exemptA a) [] w)
   | periodicSense s => exact h.periodicSenseG s
   | unknown n => exact h.setErr _
 
+theorem invB_env {w : World} (h : InvB w) (env' : Env) : InvB { w with env := env' } :=
+  fun hnb => (h hnb).of_sv rfl
+
+theorem settled_env {w : World} (h : Settled w) (env' : Env) : Settled { w with env := env' } := h
+
 /-- **One step of the event loop preserves the invariant.** -/
-theorem G.stepG {w w' : World} {e : Event} (h : G [] [] w) (hst : w.step = some (e, w')) :
-    G [] [] w' := by
+theorem G.stepG {w w' : World} {e : Event} (h : G [] [] [] w) (hI : InvB w) (hset : Settled w)
+    (hst : w.step = some (e, w')) : G [] [] [] w' := by
   unfold World.step at hst
   split at hst
   · cases hst
@@ -368,39 +486,28 @@ theorem G.stepG {w w' : World} {e : Event} (h : G [] [] w) (hst : w.step = some 
     split
     · next hl =>
       rw [exemptOf_live hl] at hpop
-      refine hpop.execG _ (fun d hd => ?_)
+      refine hpop.execG _ (fun d hd => ?_) (invB_env hI env') (settled_env hset env')
       exact h.ev e0.act ((C02V.mem_acts _ _).mpr ⟨e0, Or.inl hmem, rfl⟩) d hd
     · next hl =>
       rw [exemptOf_dead (by simpa using hl)] at hpop
       exact hpop
 
-theorem G.runLoopG (n : Nat) : ∀ {w : World}, G [] [] w → G [] [] (runLoop n w) := by
-  induction n with
-  | zero => intro w h; exact h.setErr _
-  | succ n ih =>
-    intro w h
-    unfold World.runLoop
-    split
-    · split
-      · exact h
-      · next e w' hst => exact ih (h.stepG hst)
-    · exact h
-
-theorem G.withStarted {E N : List Nat} {w : World} (h : G E N w) (b : Bool) :
-    G E N { w with started := b } :=
+theorem G.withStarted {E N A : List Nat} {w : World} (h : G E N A w) (b : Bool) :
+    G E N A { w with started := b } :=
   h.of_eq rfl rfl rfl rfl rfl
 
-theorem G.simulateInitG {E N : List Nat} {w : World} (h : G E N w) : G E N w.simulateInit := by
+theorem G.simulateInitG {E N A : List Nat} {w : World} (h : G E N A w) : G E N A w.simulateInit := by
   unfold World.simulateInit
   split
   · exact h
-  · generalize w.rm.init = q
+  · have hw : w.rm.init.1.waiting = w.rm.waiting := rfl
+    generalize w.rm.init = q at hw
     obtain ⟨rm, recs, chk⟩ := q
     dsimp only
     apply G.withStarted
-    exact G.foldl _ (fun w a hw => hw.initAssetG a) _ ((h.withRm rm).rmEffects recs chk)
+    exact G.foldl _ (fun w a hw => hw.initAssetG a) _ ((h.withRm rm hw).rmEffects recs chk)
 
-theorem G.runBeginG {E N : List Nat} {w : World} (h : G E N w) (d : Int) : G E N (w.runBegin d).1 := by
+theorem G.runBeginG {E N A : List Nat} {w : World} (h : G E N A w) (d : Int) : G E N A (w.runBegin d).1 := by
   unfold World.runBegin
   dsimp only
   split
@@ -410,8 +517,8 @@ theorem G.runBeginG {E N : List Nat} {w : World} (h : G E N w) (d : Int) : G E N
     have hinv := C01.inv_runBegin Arith.exact h.inv he
     unfold Env.runBegin at he
     obtain ⟨hge, rfl⟩ := Env.schedule_some.mp he
-    refine h.transfer rfl h.s1.2 hinv rfl ?_ h.valid (fun p _ => ⟨rfl, rfl⟩)
-      (fun y hy hacc => ⟨hy, hacc⟩) ?_
+    refine h.transfer rfl h.pl hinv rfl ?_ h.valid h.kv h.stk (h.wr.same rfl rfl (fun _ hy => hy))
+      h.aok (fun n y hy hacc => ⟨hy, hacc⟩) ?_
     · refine evOK_of h.ev (fun _ => rfl) (fun n hn => ?_)
       rw [C02V.mem_acts] at hn
       obtain ⟨e, he, rfl⟩ := hn
@@ -421,7 +528,7 @@ theorem G.runBeginG {E N : List Nat} {w : World} (h : G E N w) (d : Int) : G E N
       · left; exact (C02V.mem_acts _ _).mpr ⟨e, Or.inl he, rfl⟩
       · left; exact (C02V.mem_acts _ _).mpr ⟨e, Or.inr he, rfl⟩
     · intro d' p hdp hdE
-      refine Or.inr ⟨hdp, hdE, ?_, fun hf => Or.inl hf⟩
+      refine Or.inr ⟨hdp, hdE, rfl, ?_, fun hf => Or.inl hf⟩
       rintro ⟨e, he, h1, h2, h3, h4⟩
       exact ⟨e, insort_mem.mpr (Or.inr he), h1, h2, h3, h4⟩
 end C03W
